@@ -9,6 +9,7 @@
 import PypyrModel.Fmt
 import PypyrModel.FmtHeap
 import Props.Lemmas.C09_Tree
+import Props.Lemmas.C09_Heap
 
 namespace Pypyr.C09
 open Pypyr Pypyr.FmtHeap
@@ -133,7 +134,7 @@ theorem fmt_set_size (fuel : Nat) (ctx : Ctx) (isRec : Bool) (xs : List Val) (r 
     have hlen := mapE_ok_length hm
     refine ⟨ys, hlen, mapE_ok_forall₂ hm, rfl, ?_, ?_⟩
     · have := setOfList_length_le ys; omega
-    · intro hnd; rw [setOfList_of_nodup ys hnd]
+    · intro hnd; simp only [setOfList_of_nodup ys hnd]
 
 example : fmtIter 5 [("a", .str "x")] false (.dict [(.str "{a}", .int 1), (.str "x", .int 2), (.str "y", .int 3)])
     = .ok (.dict [(.str "x", .int 2), (.str "y", .int 3)]) := by decide +kernel
@@ -251,34 +252,31 @@ theorem fmt_bracefree_total :
       have : mapE (fmtIter n ctx isRec) xs = .ok xs := mapE_id (fun x hx =>
         ih ctx isRec x ((braceFreeL_iff xs).mp hb x hx) ((wfValL_iff xs).mp hw x hx)
           (by have := need_le_of_mem hx; omega))
-      simp [fmtIter, this]
+      simp [fmtIter, this, Except.map]
     | tuple xs =>
       simp only [braceFree] at hb; simp only [wfVal] at hw; simp only [need] at hn
       have : mapE (fmtIter n ctx isRec) xs = .ok xs := mapE_id (fun x hx =>
         ih ctx isRec x ((braceFreeL_iff xs).mp hb x hx) ((wfValL_iff xs).mp hw x hx)
           (by have := need_le_of_mem hx; omega))
-      simp [fmtIter, this]
+      simp [fmtIter, this, Except.map]
     | set xs =>
       simp only [braceFree] at hb; simp only [wfVal, Bool.and_eq_true] at hw; simp only [need] at hn
       have : mapE (fmtIter n ctx isRec) xs = .ok xs := mapE_id (fun x hx =>
         ih ctx isRec x ((braceFreeL_iff xs).mp hb x hx) ((wfValL_iff xs).mp hw.2 x hx)
           (by have := need_le_of_mem hx; omega))
-      simp [fmtIter, this, setOfList_of_nodup xs ((nodupB_iff xs).mp hw.1)]
+      simp [fmtIter, this, Except.map, setOfList_of_nodup xs ((nodupB_iff xs).mp hw.1)]
     | dict kvs =>
       simp only [braceFree] at hb; simp only [wfVal, Bool.and_eq_true] at hw; simp only [need] at hn
       have hnd : (kvs.map (·.1)).Nodup := by
         rw [← keysOf_eq_map]; exact (nodupB_iff _).mp hw.1
-      have : mapE (fun (kv : Val × Val) =>
-          match fmtIter n ctx isRec kv.1 with
-          | .error e => .error e
-          | .ok k => match fmtIter n ctx isRec kv.2 with
-            | .error e => .error e
-            | .ok w => .ok (k, w)) kvs = .ok kvs := mapE_id (fun kv hkv => by
+      simp only [fmtIter]
+      rw [mapE_id (xs := kvs)]
+      · simp only [rebuildDict_of_nodup kvs hnd]
+      · intro kv hkv
         have hbk := (braceFreeP_iff kvs).mp hb kv hkv
         have hwk := (wfValP_iff kvs).mp hw.2 kv hkv
         have hnk := need_le_of_memP hkv
-        rw [ih ctx isRec kv.1 hbk.1 hwk.1 (by omega), ih ctx isRec kv.2 hbk.2 hwk.2 (by omega)])
-      simp only [fmtIter, this, rebuildDict_of_nodup kvs hnd]
+        rw [ih ctx isRec kv.1 hbk.1 hwk.1 (by omega), ih ctx isRec kv.2 hbk.2 hwk.2 (by omega)]
     | str s =>
       simp only [braceFree] at hb; simp only [need] at hn
       cases n with
@@ -309,5 +307,175 @@ theorem fmt_idempotent_on_bracefree_result (fuel fuel' : Nat) (ctx ctx' : Ctx) (
 
 example : fmtVal 6 [("a", .list [.str "x", .int 1])] (.str "{a}") = .ok (.list [.str "x", .int 1]) ∧
     braceFree (.list [.str "x", .int 1]) = true := by decide +kernel
+
+/-! ## Heap level: identity, mutation and sharing are observable
+
+  `FmtHeap.fmtHeap fuel ctx h r` formats the object at address `r` of heap `h` against the context
+  `ctx` (string keys bound to addresses of `h`) and returns the result address and the heap
+  afterwards. The input value and every context value are objects of `h`. -/
+
+/-- **Purity (`fmtHeap_alloc_only`).** A formatting call only allocates: the heap afterwards is the
+    heap before followed by new cells. So every pre-existing cell — every object of the value being
+    formatted and of the context — is unchanged at its address, and the tree value read at any
+    pre-existing address (`readVal`, the deep value) is the same before and after. For all heaps,
+    contexts, roots and fuel. -/
+theorem fmtHeap_alloc_only (fuel : Nat) (ctx : HCtx) (h h' : Heap) (r r' : Ref)
+    (hf : fmtHeap fuel ctx h r = .ok (r', h')) :
+    (∃ ext, h' = h ++ ext) ∧
+    (∀ (i : Nat) (c : Cell), h[i]? = some c → h'[i]? = some c) ∧
+    (∀ (f : Nat) (x : Ref) (v : Val), readVal f h x = some v → readVal f h' x = some v) := by
+  unfold fmtHeap at hf
+  split at hf
+  · cases hf
+  · rename_i r1 st hst
+    cases hf
+    have e : Ext h st.heap := (fmtH_good hst).ext
+    refine ⟨?_, fun i c hc => e.get hc, fun f x v hv => readVal_ext e f x v hv⟩
+    obtain ⟨ext, he, _⟩ := e
+    exact ⟨ext, he⟩
+
+/-- The same for a call made in the middle of a traversal, with any memo. -/
+theorem fmtH_alloc_only (fuel : Nat) (ctx : HCtx) (isRec : Bool) (r r' : Ref) (st st' : St)
+    (hf : fmtH fuel ctx isRec r st = .ok (r', st')) :
+    (∃ ext, st'.heap = st.heap ++ ext) ∧
+    (∀ (i : Nat) (c : Cell), st.heap[i]? = some c → st'.heap[i]? = some c) := by
+  have e : Ext st.heap st'.heap := (fmtH_good hf).ext
+  refine ⟨?_, fun i c hc => e.get hc⟩
+  obtain ⟨ext, he, _⟩ := e
+  exact ⟨ext, he⟩
+
+/-- Corollary in the property's words: the value being formatted and every context value are
+    deep-equal before and after the call. -/
+theorem fmtHeap_input_and_context_unchanged (fuel : Nat) (ctx : HCtx) (h h' : Heap) (r r' : Ref)
+    (hf : fmtHeap fuel ctx h r = .ok (r', h')) :
+    (∀ v, deepVal h r = some v → readVal (h.length + 1) h' r = some v) ∧
+    (∀ k x v, HCtx.get? ctx k = some x → deepVal h x = some v → readVal (h.length + 1) h' x = some v) :=
+  ⟨fun v hv => (fmtHeap_alloc_only fuel ctx h h' r r' hf).2.2 _ r v hv,
+   fun _ x v _ hv => (fmtHeap_alloc_only fuel ctx h h' r r' hf).2.2 _ x v hv⟩
+
+/-- The formatter never allocates a non-string leaf (nor a special tag): every new cell is a string
+    or a container. Hence every non-string leaf reachable in the result is a pre-existing object. -/
+theorem fmtHeap_allocates_no_leaf (fuel : Nat) (ctx : HCtx) (h h' : Heap) (r r' : Ref)
+    (hf : fmtHeap fuel ctx h r = .ok (r', h')) :
+    ∀ (i : Nat) (c : Cell), h.length ≤ i → h'[i]? = some c → isAllocCell c = true := by
+  unfold fmtHeap at hf
+  split at hf
+  · cases hf
+  · rename_i r1 st hst
+    cases hf
+    exact fun i c hi hc => (fmtH_good hst).ext.new_isAlloc hi hc
+
+/-- **Leaf identity (`fmtHeap_leaf_identity`).** Formatting a non-string leaf (None, bool, number,
+    bytes, arbitrary object) returns the same reference and leaves the heap as it is. -/
+theorem fmtHeap_leaf_identity (fuel : Nat) (ctx : HCtx) (h h' : Heap) (r r' : Ref) (v : Val)
+    (hc : h[r]? = some (.leaf v)) (hf : fmtHeap fuel ctx h r = .ok (r', h')) : r' = r ∧ h' = h := by
+  unfold fmtHeap at hf
+  split at hf
+  · cases hf
+  · rename_i r1 st hst
+    cases hf
+    have hn : MemoNoLeaf { heap := h, memo := [] } := by intro x d hx; simp [memoGet] at hx
+    have := fmtH_leaf hn hc hst
+    exact ⟨this.1, by rw [this.2]⟩
+
+/-- The empty memo of a top-level call has no leaf keys, and no call ever adds one. -/
+theorem memoNoLeaf_invariant (fuel : Nat) (ctx : HCtx) (isRec : Bool) (r r' : Ref) (st st' : St)
+    (hf : fmtH fuel ctx isRec r st = .ok (r', st')) :
+    MemoNoLeaf { heap := st.heap, memo := [] } ∧ (MemoNoLeaf st → MemoNoLeaf st') :=
+  ⟨by intro x d hx; simp [memoGet] at hx, (fmtH_good hf).noLeaf⟩
+
+/-- **List nodes (leaf identity and sharing at every node).** Formatting a list object that the
+    memo does not yet answer for — at the top of a call or anywhere inside a traversal — yields a
+    NEW list cell of the same class tag and length; a member that is a non-string leaf is the same
+    reference in the result (`fmtHeap_leaf_identity` at every node); a container member that
+    occurs at two positions is formatted once and the result holds one shared reference at both
+    positions (`fmtHeap_sharing`: the id-keyed memo). -/
+theorem fmtH_list_node (n : Nat) (ctx : HCtx) (isRec : Bool) (r r' : Nat) (st st' : St)
+    (tag : Nat) (rs : List Ref)
+    (hn : MemoNoLeaf st) (hmiss : memoHit st r = none) (hc : st.heap[r]? = some (.list tag rs))
+    (hf : fmtH (n + 1) ctx isRec r st = .ok (r', st')) :
+    ∃ rs', st'.heap[r']? = some (.list tag rs') ∧ st.heap.length ≤ r' ∧ rs'.length = rs.length ∧
+      All₂ (fun x y => ∀ v, st.heap[x]? = some (.leaf v) → y = x) rs rs' ∧
+      (∀ (i j x : Nat), i < j → rs[i]? = some x → rs[j]? = some x → isContainerAt st.heap x = true →
+        rs'[i]? = rs'[j]?) := by
+  unfold fmtH at hf
+  rw [hmiss] at hf
+  simp only [hc] at hf
+  split at hf
+  · cases hf
+  · rename_i rs' st1 hm
+    simp only [alloc] at hf
+    cases hf
+    have ⟨hleaf, g⟩ := mapS_fmtH_leaves hn hm
+    refine ⟨rs', by simp, g.ext.length_le, mapS_length _ _ _ _ hm, hleaf, ?_⟩
+    intro i j x hij hi hj hx
+    exact mapS_fmtH_shared rs st rs' st1 hm i j x hij hi hj hx
+
+/-- Tuple nodes: as list nodes. -/
+theorem fmtH_tuple_node (n : Nat) (ctx : HCtx) (isRec : Bool) (r r' : Nat) (st st' : St)
+    (tag : Nat) (rs : List Ref)
+    (hn : MemoNoLeaf st) (hmiss : memoHit st r = none) (hc : st.heap[r]? = some (.tuple tag rs))
+    (hf : fmtH (n + 1) ctx isRec r st = .ok (r', st')) :
+    ∃ rs', st'.heap[r']? = some (.tuple tag rs') ∧ st.heap.length ≤ r' ∧ rs'.length = rs.length ∧
+      All₂ (fun x y => ∀ v, st.heap[x]? = some (.leaf v) → y = x) rs rs' ∧
+      (∀ (i j x : Nat), i < j → rs[i]? = some x → rs[j]? = some x → isContainerAt st.heap x = true →
+        rs'[i]? = rs'[j]?) := by
+  unfold fmtH at hf
+  rw [hmiss] at hf
+  simp only [hc] at hf
+  split at hf
+  · cases hf
+  · rename_i rs' st1 hm
+    simp only [alloc] at hf
+    cases hf
+    have ⟨hleaf, g⟩ := mapS_fmtH_leaves hn hm
+    refine ⟨rs', by simp, g.ext.length_le, mapS_length _ _ _ _ hm, hleaf, ?_⟩
+    intro i j x hij hi hj hx
+    exact mapS_fmtH_shared rs st rs' st1 hm i j x hij hi hj hx
+
+/-- **Sharing (`fmtHeap_sharing`), general form.** Once a container object has been formatted the
+    memo answers for it (`fmtH_records`), the answer survives every later call of the traversal
+    (`Good.stable`), and a later occurrence returns that very reference without touching the
+    state. -/
+theorem fmtHeap_sharing (fuel n : Nat) (ctx : HCtx) (isRec : Bool) (x y : Nat) (st st1 : St)
+    (hx : isContainerAt st.heap x = true) (h1 : fmtH fuel ctx isRec x st = .ok (y, st1)) :
+    memoHit st1 x = some y ∧
+    (∀ (z z' : Ref) (st2 : St) (f : Nat) (c : HCtx) (b : Bool),
+        fmtH f c b z st1 = .ok (z', st2) →
+        memoHit st2 x = some y ∧ fmtH (n + 1) ctx isRec x st2 = .ok (y, st2)) := by
+  have hrec := fmtH_records hx h1
+  refine ⟨hrec, ?_⟩
+  intro z z' st2 f c b h2
+  have := (fmtH_good h2).stable x y hrec
+  exact ⟨this, fmtH_hit this⟩
+
+/-- Top-level corollary for a list value: new list, leaves by reference, shared members shared. -/
+theorem fmtHeap_list (n : Nat) (ctx : HCtx) (h h' : Heap) (r r' : Nat) (tag : Nat) (rs : List Ref)
+    (hc : h[r]? = some (.list tag rs)) (hf : fmtHeap (n + 1) ctx h r = .ok (r', h')) :
+    ∃ rs', h'[r']? = some (.list tag rs') ∧ h.length ≤ r' ∧ rs'.length = rs.length ∧
+      All₂ (fun x y => ∀ v, h[x]? = some (.leaf v) → y = x) rs rs' ∧
+      (∀ (i j x : Nat), i < j → rs[i]? = some x → rs[j]? = some x → isContainerAt h x = true →
+        rs'[i]? = rs'[j]?) := by
+  unfold fmtHeap at hf
+  split at hf
+  · cases hf
+  · rename_i r1 st hst
+    cases hf
+    exact fmtH_list_node n ctx false r _ { heap := h, memo := [] } st tag rs
+      (by intro x d hx; simp [memoGet] at hx) (by simp [memoHit, memoGet]) hc hst
+
+/- A concrete heap: cell 0 = 'v', 1 = Opaque object, 2 = '{a}', 3 = [2, 1], 4 = [3, 3, 1].
+   Context a -> 0. Formatting cell 4 gives a new list [n, n, 1] with n a new list ['v'-object, 1]:
+   the inner list is formatted once and shared, the opaque object is the same reference, the
+   five old cells are untouched. -/
+example :
+    (match fmtHeap 6 [("a", 0)]
+        [.str "v", .leaf (.obj 7), .str "{a}", .list 0 [2, 1], .list 0 [3, 3, 1]] 4 with
+     | .ok (r, h) =>
+       r == 6 && h.length == 7 &&
+       (match h[5]?, h[6]? with
+        | some (Cell.list 0 [0, 1]), some (Cell.list 0 [5, 5, 1]) => true
+        | _, _ => false)
+     | .error _ => false) = true := by decide +kernel
 
 end Pypyr.C09
